@@ -240,4 +240,100 @@ theorem Closed.moved {h : Nat} {p : List Bool} {b : Bool} {k : List Bool} {v : T
   simp only [leafStrs, leavesOf, List.flatMap_cons, List.flatMap_nil, List.append_nil, List.mem_map, List.mem_range]
   exact ⟨h - 1, by omega, by simp⟩
 
+/-- hashes of the shortcut strings -/
+def LeafK (c : HashCtx) (Ht : Nat) (p : List Bool) (t : T Trie.Bytes) : List Trie.Bytes := (leafStrs c Ht p t).map c.H
+
+/-- standing assumptions on the hash function, relative to the explicit list `L` -/
+structure Env (c : HashCtx) (Ht : Nat) (L : List Trie.Bytes) : Prop where
+  ok : HashOK c Ht
+  good : HashGoodOn c.H L
+  /-- `deleteOldNode(nil)` deletes the all-zero key: no node may hash to it -/
+  nz : ∀ x ∈ L, c.H x ≠ zeroKey
+
+theorem genuine_ne_zero (env : Env c Ht L) {e : Trie.Bytes × Trie.Bytes} (g : Genuine c Ht L e) : e.1 ≠ zeroKey := by
+  obtain ⟨x, hx, ex⟩ := genuine_key g
+  rw [ex]; exact env.nz x hx
+
+theorem leavesOf_spec : ∀ (t : T Trie.Bytes) (h : Nat) (p : List Bool), Canon h t → Vals32 t → p.length + h = Ht →
+    ∀ kv ∈ leavesOf p t, kv.1.length = Ht ∧ kv.2.length = 32 ∧ ∃ rest, kv.1 = p ++ rest := by
+  intro t
+  induction t with
+  | empty => intro h p _ _ _ kv hkv; simp [leavesOf] at hkv
+  | leaf k v =>
+    intro h p cn v32 hp kv hkv
+    simp only [leavesOf, List.mem_singleton] at hkv
+    subst hkv
+    simp only [Canon] at cn
+    exact ⟨by simp; omega, v32, k, rfl⟩
+  | node l r ihl ihr =>
+    intro h p cn v32 hp kv hkv
+    obtain ⟨h1, cl⟩ := canon_child cn false
+    obtain ⟨_, cr⟩ := canon_child cn true
+    simp only [leavesOf, List.mem_append] at hkv
+    rcases hkv with hkv | hkv
+    · obtain ⟨a, b, rest, e⟩ := ihl (h - 1) (p ++ [false]) cl v32.1 (by simp; omega) kv hkv
+      exact ⟨a, b, false :: rest, by simpa using e⟩
+    · obtain ⟨a, b, rest, e⟩ := ihr (h - 1) (p ++ [true]) cr v32.2 (by simp; omega) kv hkv
+      exact ⟨a, b, true :: rest, by simpa using e⟩
+
+/-- **The two sides of a node do not interfere**: a batch root below `p ++ [b]` never has the hash of a shortcut
+string of the other side. -/
+theorem disjoint_sides (env : Env c Ht L) {p : List Bool} {b : Bool} {kv : Trie.Bytes × Trie.Bytes}
+    (gu : GenuineUnder c Ht L (p ++ [b]) kv) {h2 : Nat} {t2 : T Trie.Bytes} (c2 : Canon h2 t2) (v2 : Vals32 t2)
+    (l2 : (p ++ [!b]).length + h2 = Ht) (cl2 : ∀ x ∈ leafStrs c Ht (p ++ [!b]) t2, x ∈ L)
+    (hk : kv.1 ∈ LeafK c Ht (p ++ [!b]) t2) : False := by
+  obtain ⟨h', q, s, sne, cs, vs, ls, hL, rfl⟩ := gu
+  simp only [LeafK, List.mem_map] at hk
+  obtain ⟨x, hx, ex⟩ := hk
+  have xL := cl2 x hx
+  simp only [leafStrs, List.mem_flatMap, List.mem_map, List.mem_range] at hx
+  obtain ⟨⟨fk, v⟩, hleaf, hh, _, rfl⟩ := hx
+  obtain ⟨fkl, vl, rest, efk⟩ := leavesOf_spec t2 h2 (p ++ [!b]) c2 v2 l2 (fk, v) hleaf
+  simp only at fkl vl efk
+  obtain ⟨y, hy, ey⟩ := hashT_is_hash (c := c) h' (p ++ [b] ++ q) s sne
+  have yx : y = c.enc fk ++ v ++ [byteOf hh] := env.good.inj y (hL y hy) _ xL (by rw [← ey]; exact ex.symm)
+  cases s with
+  | empty => exact sne rfl
+  | leaf k' v' =>
+    simp only [hashedT, List.mem_singleton] at hy
+    subst hy
+    have kl : (p ++ [b] ++ q ++ k').length = Ht := by
+      simp only [Canon] at cs
+      simp only [List.length_append] at ls ⊢
+      omega
+    have e1 := List.append_inj (List.append_inj' yx (by simp)).1 (by rw [env.ok.encLen _ kl, env.ok.encLen _ fkl])
+    have := env.ok.encInj _ _ kl fkl e1.1
+    rw [efk] at this
+    simp only [List.append_assoc] at this
+    have := List.append_cancel_left this
+    cases b <;> simp at this
+  | node l r =>
+    simp only [hashedT, List.mem_cons] at hy
+    have ylen : y.length ≤ 64 := by
+      have := hashT_is_hash (c := c) h' (p ++ [b] ++ q) (T.node l r) sne
+      rcases hy with rfl | hy
+      · exact node_pre_len env.ok _ _ _ _ l r
+      · -- `y` is the pre-image of the root: `ey` says `hashT … = H y`; the root's pre-image is the only candidate
+        have : c.H y = c.H (hashT c (h' - 1) (p ++ [b] ++ q ++ [false]) l ++ hashT c (h' - 1) (p ++ [b] ++ q ++ [true]) r) := by
+          rw [← ey]; rfl
+        have := env.good.inj y (hL y (by simp [hashedT, hy])) _ (hL _ (by simp [hashedT])) this
+        rw [this]
+        exact node_pre_len env.ok _ _ _ _ l r
+    have : y.length = 65 := by rw [yx]; simp [env.ok.encLen _ fkl, vl]
+    omega
+
+/-! ### the invariant of a call -/
+
+/-- What a call (`updU` or one of its parts) guarantees about `updatedNodes`; `OK` are the keys of the old batch roots. -/
+structure Inv (c : HashCtx) (Ht : Nat) (L : List Trie.Bytes) (h : Nat) (p : List Bool) (OK : Trie.Bytes → Prop)
+    (un : UN) (r : ResU) : Prop where
+  genuine : ∀ e ∈ r.2, e ∈ un ∨ Genuine c Ht L e
+  present : ∀ kv ∈ pairsAt c h p r.1.1, kv ∈ r.2 ∨ OK kv.1
+  frame : ∀ e ∈ un, Genuine c Ht L e → e ∈ r.2 ∨ OK e.1 ∨ e.1 ∈ LeafK c Ht p r.1.1
+
+theorem Inv.mono {h : Nat} {p : List Bool} {OK OK' : Trie.Bytes → Prop} {un : UN} {r : ResU}
+    (i : Inv c Ht L h p OK un r) (hm : ∀ k, OK k → OK' k) : Inv c Ht L h p OK' un r :=
+  ⟨i.genuine, fun kv hkv => (i.present kv hkv).imp_right (hm _),
+    fun e he ge => (i.frame e he ge).imp_right (Or.imp_left (hm _))⟩
+
 end Aergo.TrieStore
